@@ -46,6 +46,21 @@ func Run(c *hx.Ctx) {
 		initEnv()
 		runH2GoAway(c)
 	}
+	if only == "" || only == "lookup" {
+		initEnv()
+		for i := range fixedTL {
+			runTL(c, &fixedTL[i])
+		}
+		for i := 0; i < c.N(150, 500); i++ {
+			runTL(c, nil)
+		}
+		for _, t := range fixedTF {
+			runTF(c, t)
+		}
+		for i := 0; i < c.N(30, 90); i++ {
+			runTF(c, genTF(c, i))
+		}
+	}
 	if only == "" || only == "vl" {
 		initEnv()
 		for _, g := range fixedVL {
